@@ -170,6 +170,11 @@ func New(extraPredicates map[ast.PredicateSym]ast.Decl, decls []ast.Decl, bounds
 		if pred == symbols.Package || pred == symbols.Use {
 			continue
 		}
+		// Names that start with ':' belong to the built-in predicates; a user declaration would make
+		// an atom with that name pass at any arity, and the engine decides it with builtin.Decide.
+		if pred.IsBuiltin() {
+			return nil, fmt.Errorf("predicate name %v is reserved for built-in predicates, in %v", pred.Symbol, decl)
+		}
 		if existing, ok := declMap[pred]; ok {
 			return nil, fmt.Errorf("predicate %v declared more than once, previous was %v", pred, existing)
 		}
